@@ -13,7 +13,7 @@ extern int g_emitted;     /* number of emissions (vacuity guard) */
 extern int g_raw_emitted; /* a free-form (unescaped) string was written into the document */
 /* corpus ghost */
 extern int gh_corpus_null, gh_corpus_empty;
-extern unsigned long gh_ntus, gh_tus_written;
+extern unsigned long gh_ntus, gh_tus_written, gh_corpora_written;
 #ifdef __cplusplus
 }
 #endif
